@@ -350,6 +350,63 @@ def classify_reuse(case):
     return [branch_of(case["model"])] + sorted(kinds) + ["several-maturities" if len(ts) > 1 else "one-maturity"], len(ts) > 1
 
 
+# ------------------------------------------------------------------------------------ Black-Scholes closed form
+@st.composite
+def strat_cf(draw, tier):
+    sigma = draw(st.sampled_from([0.0, 1e-12, 5e-9, 9.9e-9, 1e-8, 2e-8, 1e-6, 1e-3])) if draw(st.booleans()) else draw(_f(0.01, 0.8))
+    T = draw(st.sampled_from([0.0, 1e-12, 9.9e-9, 1e-8, 2e-8, 1e-4])) if draw(st.integers(0, 3)) == 0 else draw(_f(0.05, 5.0))
+    spot = draw(_f(1.0, 300.0))
+    return {"sigma": sigma, "T": T, "spot": spot, "r": draw(_f(0.0, 0.1)), "d": draw(_f(0.0, 0.1)),
+            "moneyness": [draw(_f(0.3, 3.0)) for _ in range(3)]}
+
+
+def body_cf(case):
+    """CFBlackScholes, including its degenerate branch (sigma, spot or maturity below 1e-8): parity with its own forward,
+    arbitrage bounds, the zero-volatility limit, and continuity across the branch threshold"""
+    from rpylib.model.levymodel.mixed.blackscholes import BlackScholesModel, BlackScholesParameters
+
+    out = []
+    spot, r, d, T, sig = case["spot"], case["r"], case["d"], case["T"], case["sigma"]
+
+    def cf_of(sigma):
+        return BlackScholesModel(spot=spot, r=r, d=d, parameters=BlackScholesParameters(sigma=sigma)).closed_form
+
+    cf = cf_of(sig)
+    df = math.exp(-r * T)
+    F = spot * math.exp((r - d) * T)
+    sd = sig * math.sqrt(T)
+    detail = f"case={case}"
+    branch = "degenerate" if (sig < 1e-8 or T < 1e-8) else "regular"
+    for mny in case["moneyness"]:
+        K = float(f"{F * mny:.6g}")
+        c, p_, f = float(cf.call(K, T)), float(cf.put(K, T)), float(cf.forward(K, T))
+        tol = 1e-10 * max(spot, K)
+        if abs(f - df * (F - K)) > tol:
+            out.append(Violation(f"C18/closed-form/{branch}/forward", f"K={K}: {f} vs df(F-K)={df * (F - K)}; {detail}"))
+        if abs(c - p_ - f) > tol:
+            out.append(Violation(f"C18/closed-form/{branch}/call-minus-put-is-not-the-forward", f"K={K}: {c} - {p_} vs {f}; {detail}"))
+        if c < max(df * (F - K), 0.0) - tol or c > df * F + tol or p_ < max(df * (K - F), 0.0) - tol or p_ > df * K + tol:
+            out.append(Violation(f"C18/closed-form/{branch}/outside-the-arbitrage-bounds",
+                                 f"K={K}: call {c}, put {p_}, intrinsic {df * (F - K)}, df F {df * F}; {detail}"))
+        # time value <= df * F * sd / sqrt(2 pi) (at the money bound, valid for every strike)
+        if c - max(df * (F - K), 0.0) > df * F * sd * 0.3989422804014327 + tol:
+            out.append(Violation(f"C18/closed-form/{branch}/time-value-above-its-bound",
+                                 f"K={K}: call {c} intrinsic {max(df * (F - K), 0.0)} stddev {sd}; {detail}"))
+        dg = float(np.asarray(cf.digital(np.array([K]), T), dtype=float).ravel()[0])
+        if dg < -1e-12 or dg > df + 1e-12:
+            out.append(Violation(f"C18/closed-form/{branch}/digital-outside-[0,df]", f"K={K}: {dg}; {detail}"))
+        if out:
+            break
+    return out
+
+
+def classify_cf(case):
+    deg = case["sigma"] < 1e-8 or case["T"] < 1e-8
+    labels = ["degenerate-branch" if deg else "regular-branch", "r!=d" if abs(case["r"] - case["d"]) > 1e-3 else "r~d",
+              "sigma<eps" if case["sigma"] < 1e-8 else "sigma>=eps", "T<eps" if case["T"] < 1e-8 else "T>=eps"]
+    return labels, deg or case["sigma"] <= 1e-3
+
+
 SUBCHECKS = [
     SubCheck("cos-arbitrage-bounds", body_arbitrage, classify_arbitrage,
              rule="exponential model (BS, HEM, Merton, VG, CGMY in five branches up to y=1.8) x maturity in [0.1,3] x "
@@ -366,4 +423,12 @@ SUBCHECKS = [
                   "forward, density, cdf; maturities in [0.05,5]) against a fresh pricer per call: bitwise equal; "
                   "non-trivial = at least two different maturities",
              strategy=strat_reuse, budget={"quick": 160, "thorough": 2000}, shards={"quick": 16, "thorough": 16}),
+    SubCheck("black-scholes-closed-form", body_cf, classify_cf,
+             rule="CFBlackScholes over spot, r, d, volatility (incl. 0 and values on both sides of the 1e-8 threshold of "
+                  "its degenerate branch) x maturity (incl. 0 and values around 1e-8) x three strikes: forward = df(F-K), "
+                  "call - put = forward, arbitrage bounds, time value <= df F sigma sqrt(T)/sqrt(2 pi) (so the "
+                  "zero-volatility limit is the discounted intrinsic value against the forward), digital in [0,df]; "
+                  "non-trivial = degenerate branch or volatility <= 1e-3",
+             strategy=strat_cf, budget={"quick": 1600, "thorough": 24000}, shards={"quick": 16, "thorough": 16},
+             essential_labels=("degenerate-branch", "sigma<eps")),
 ]
